@@ -1,15 +1,25 @@
 use std::mem::MaybeUninit;
 
 /// Internal data holder, heavily unsage, do not use it directly.
+#[cfg_attr(feature = "verif-hooks", repr(C))]
 pub struct RecordMaybeUninit<const CAP: usize> {
     data: [MaybeUninit<u8>; CAP],
+    #[cfg(feature = "verif-hooks")]
+    shadow: crate::verif::Shadow<CAP>,
 }
+
+/// Whether the store in [`RecordMaybeUninit::write`] requires an aligned destination (keep in
+/// sync with that store).
+#[cfg(feature = "verif-hooks")]
+const WRITE_REQUIRES_ALIGNED: bool = false;
 
 impl<const CAP: usize> RecordMaybeUninit<CAP> {
     /// Constructs an uninitialized record.
     pub fn new() -> Self {
         Self {
             data: unsafe { std::mem::MaybeUninit::uninit().assume_init() },
+            #[cfg(feature = "verif-hooks")]
+            shadow: crate::verif::Shadow::new(),
         }
     }
 
@@ -20,6 +30,9 @@ impl<const CAP: usize> RecordMaybeUninit<CAP> {
     /// This function should not be called by anything but truc-generated code. It is used to put
     /// data written by [`Self::write`] back in a droppable state.
     pub unsafe fn read<T>(&self, offset: usize) -> T {
+        #[cfg(feature = "verif-hooks")]
+        self.shadow
+            .on_read::<T>(self.data.as_ptr() as usize, offset);
         std::ptr::read((self.data.as_ptr().add(offset) as *const u8).cast())
     }
 
@@ -30,6 +43,9 @@ impl<const CAP: usize> RecordMaybeUninit<CAP> {
     /// This function should not be called by anything but truc-generated code which is also
     /// responsible for dropping the data by reading the object (see [`Self::read`]).
     pub unsafe fn write<T>(&mut self, offset: usize, t: T) {
+        #[cfg(feature = "verif-hooks")]
+        self.shadow
+            .on_write::<T>(self.data.as_ptr() as usize, offset, WRITE_REQUIRES_ALIGNED);
         std::ptr::write_unaligned((self.data.as_mut_ptr().add(offset) as *mut u8).cast(), t);
     }
 
@@ -39,6 +55,9 @@ impl<const CAP: usize> RecordMaybeUninit<CAP> {
     ///
     /// This function should not be called by anything but truc-generated code.
     pub unsafe fn get<T>(&self, offset: usize) -> &T {
+        #[cfg(feature = "verif-hooks")]
+        self.shadow
+            .on_get::<T>("get", self.data.as_ptr() as usize, offset);
         &*(self.data.as_ptr().add(offset) as *mut u8).cast()
     }
 
@@ -48,7 +67,17 @@ impl<const CAP: usize> RecordMaybeUninit<CAP> {
     ///
     /// This function should not be called by anything but truc-generated code.
     pub unsafe fn get_mut<T>(&mut self, offset: usize) -> &mut T {
+        #[cfg(feature = "verif-hooks")]
+        self.shadow
+            .on_get::<T>("get_mut", self.data.as_ptr() as usize, offset);
         &mut *(self.data.as_mut_ptr().add(offset) as *mut u8).cast()
+    }
+}
+
+#[cfg(feature = "verif-hooks")]
+impl<const CAP: usize> Drop for RecordMaybeUninit<CAP> {
+    fn drop(&mut self) {
+        self.shadow.on_drop();
     }
 }
 
